@@ -18,6 +18,7 @@ E: each call is performed on pytato (public API) and on NumPy (concrete
 from __future__ import annotations
 
 import itertools
+import json
 import multiprocessing as mp
 import warnings
 from typing import Any
@@ -340,9 +341,101 @@ def _perform_many(cs: list[dict]) -> list[dict | None]:
     return [perform(c) for c in cs]
 
 
+# --------------------------------------------------------------------------
+# every intermediate node of multi-call programs
+
+def intermediate_cases(tier: str) -> list[dict]:
+    """Each call of seeded random programs becomes one case whose operands are
+    described by the (pytato-side) shape and dtype of the values it consumes;
+    calls whose operands already differ between pytato and NumPy (an upstream
+    divergence, reported where it arises) are not compared again."""
+    rng = np.random.default_rng(seed() + 3)
+    n = 250 if tier == "quick" else 3000
+    out: list[dict] = []
+    for k in range(n):
+        prog = progspace.random_program(rng, f"m{k}", int(rng.integers(2, 8)))
+        data = {}
+        for i in prog["inputs"]:
+            data[i["name"]] = np.array(i["data"], rp.DT[i["dtype"]]).reshape(i["shape"]) \
+                if "data" in i else np.ones(i["shape"], rp.DT[i["dtype"]])
+        nb = rp.NpBackend(data)
+        pb = rp.PtBackend({kk: v for kk, v in data.items()
+                           if any(i["name"] == kk and i.get("kind") == "dw"
+                                  for i in prog["inputs"])})
+        with warnings.catch_warnings():
+            warnings.simplefilter("ignore")
+            nb.run(prog)
+            pb.run(prog)
+        ninp = len(prog["inputs"])
+        for j, call in enumerate(prog["calls"]):
+            pos = ninp + j
+            if pos >= len(pb.values) or pos >= len(nb.values):
+                break
+            pv, nv = pb.values[pos], nb.values[pos]
+            if pv is None or nv is None:
+                break
+            refs = [v for kk, v in call.items() if kk in ("a", "b", "c") and rp.is_ref(v)]
+            refs += [v for v in call.get("arrays", [])] + [v for v in call.get("args", [])
+                                                           if rp.is_ref(v)]
+
+            def same(r: int) -> bool:
+                a, b = pb.values[r - 1], np.asarray(nb.values[r - 1])
+                try:
+                    return tuple(int(s) for s in a.shape) == tuple(b.shape) \
+                        and np.dtype(a.dtype) == b.dtype
+                except Exception:      # noqa: BLE001
+                    return False
+            if not all(same(r) for r in refs):
+                continue
+            inputs = []
+            remap = {}
+            for r in dict.fromkeys(refs):
+                a = pb.values[r - 1]
+                inputs.append(inp(f"v{r}", [int(s) for s in a.shape], export.dt(a.dtype)))
+                remap[r] = len(inputs)
+            c2 = json.loads(json.dumps(call))
+            for kk in ("a", "b", "c"):
+                if rp.is_ref(c2.get(kk)):
+                    c2[kk] = remap[c2[kk]]
+            if "arrays" in c2:
+                c2["arrays"] = [remap[v] for v in c2["arrays"]]
+            op = c2["op"]
+            cid = f"mc/{prog['id']}/{j}/{op}"
+            if op in ELEMENTWISE + ["where"]:
+                ops = [c2["c"], c2["a"], c2["b"]] if op == "where" else [c2["a"], c2["b"]]
+                out.append(case(cid, inputs, c2, "elementwise", ops))
+            elif op in UNARY:
+                out.append(case(cid, inputs, c2, "unary", [c2["a"]]))
+            elif op == "astype":
+                out.append(case(cid, inputs, c2, "astype", [c2["a"]], dtype=c2["dtype"]))
+            elif op in REDUCE:
+                ax = c2.get("axis")
+                out.append(case(cid, inputs, c2, "reduce", [c2["a"]], allaxes=ax is None,
+                                axes=[] if ax is None else (ax if isinstance(ax, list)
+                                                            else [ax])))
+            elif op in ("stack", "concatenate"):
+                out.append(case(cid, inputs, c2, op, c2["arrays"], axis=c2["axis"]))
+            elif op in ("roll", "expand_dims"):
+                out.append(case(cid, inputs, c2, op, [c2["a"]], axis=c2["axis"]))
+            elif op == "squeeze" and isinstance(c2.get("axis"), list) and len(c2["axis"]) == 1:
+                c2["axis"] = c2["axis"][0]
+                out.append(case(cid, inputs, c2, op, [c2["a"]], axis=c2["axis"]))
+            elif op == "transpose" and c2.get("axes") is not None:
+                out.append(case(cid, inputs, c2, op, [c2["a"]], axes=c2["axes"]))
+            elif op == "reshape":
+                out.append(case(cid, inputs, c2, op, [c2["a"]], newshape=c2["newshape"]))
+            elif op == "broadcast_to":
+                out.append(case(cid, inputs, c2, op, [c2["a"]], shape=c2["shape"]))
+            elif op == "matmul":
+                out.append(case(cid, inputs, c2, op, [c2["a"], c2["b"]]))
+            elif op == "index" and all(it["t"] in ("int", "slice") for it in c2["idx"]):
+                out.append(case(cid, inputs, c2, "index", [c2["a"]], idx=c2["idx"]))
+    return out
+
+
 def main(tier: str, only: list[dict] | None = None) -> int:
     run = Run(PROP, tier, "model_checking")
-    cs = only if only is not None else cases(tier)
+    cs = only if only is not None else cases(tier) + intermediate_cases(tier)
     ids = set()
     cs = [c for c in cs if not (c["id"] in ids or ids.add(c["id"]))]
     n = NCPU * 4
@@ -392,6 +485,7 @@ def main(tier: str, only: list[dict] | None = None) -> int:
         "rule": "one recorded call per point of the product; distinct by id; non-trivial = "
                 "NumPy and pytato both accept, so shape and dtype are actually compared",
         "exhaustive": tier == "thorough", "per_class": per_cls, "stats": stats,
+        "intermediate_node_cases": sum(1 for c in cs if c["id"].startswith("mc/")),
         "scope": "13 dtypes; operand kinds array / Python scalar (b,i,f,c) / NumPy scalar; "
                  "thorough: all shape pairs with 0..3 axes of length 0..4 and every slice "
                  "start/stop in {None} u [-7,7], step {None,+-1,+-2,+-3} on lengths 0..6; "
